@@ -21,6 +21,7 @@ import (
 	"context"
 	gosql "database/sql"
 	"database/sql/driver"
+	"fmt"
 
 	"seata.apache.org/seata-go/pkg/datasource/sql/exec"
 	"seata.apache.org/seata-go/pkg/datasource/sql/types"
@@ -160,11 +161,8 @@ func (c *ATConn) createOnceTxContext(ctx context.Context) bool {
 	return onceTx
 }
 
-func (c *ATConn) createNewTxOnExecIfNeed(ctx context.Context, f func() (types.ExecResult, error)) (types.ExecResult, error) {
-	var (
-		tx  driver.Tx
-		err error
-	)
+func (c *ATConn) createNewTxOnExecIfNeed(ctx context.Context, f func() (types.ExecResult, error)) (ret types.ExecResult, err error) {
+	var tx driver.Tx
 
 	if c.txCtx.TransactionMode != types.Local && tm.IsGlobalTx(ctx) && c.autoCommit {
 		tx, err = c.BeginTx(ctx, driver.TxOptions{Isolation: driver.IsolationLevel(gosql.LevelDefault)})
@@ -182,10 +180,12 @@ func (c *ATConn) createNewTxOnExecIfNeed(ctx context.Context, f func() (types.Ex
 					log.Errorf("conn at rollback error:%v", rollbackErr)
 				}
 			}
+			// the caller must not see a nil result with a nil error
+			ret, err = nil, fmt.Errorf("at exec panic: %v", recoverErr)
 		}
 	}()
 
-	ret, err := f()
+	ret, err = f()
 	if err != nil {
 		if tx != nil {
 			// the implicit local transaction must not stay open on the pooled connection
